@@ -46,8 +46,10 @@ def make_ops(rng, cfg, profile, tier):
         elif r < 0.8:
             ops.append({'op': 'BIOGEME', 'a': [rng.choice(list(range(1, ni + 3)) + [0]), rng.randrange(5),
                                                rng.choice(['traj', 'mc'])]})
-        elif r < 0.9:
+        elif r < 0.86:
             ops.append({'op': 'MAP', 'a': []})
+        elif r < 0.9:
+            ops.append({'op': 'BOOT_EST', 'a': [rng.choice(list(range(1, ni + 3))), rng.randrange(5)]})
         else:
             ops.append({'op': 'SIZE', 'a': [rng.choice(['traj', 'mc'])]})
     return ops
@@ -332,6 +334,46 @@ class Session:
                 ctx.probe('T > individuals')
             ctx.count('biogeme_objects')
             ctx.log(kind, T, k, fhex(ll))
+        elif kind == 'BOOT_EST':
+            # an estimation with bootstrap on the panel object (individuals are resampled), then the likelihood of the
+            # SAME object: it must be the one of the estimation data again
+            T, k = a
+            if self.cfg['template'] == 'expsq' or len({r['pid'] for r in self.rows}) < 2:
+                ctx.log(kind, 'skip')   # one-parameter model (observation O3) / a single individual
+            else:
+                import biogeme.biogeme as bio
+                from biogeme.parameters import Parameters
+                form = 'mc' if self.uses_draws() else 'traj'
+                lform = 'logtraj' if form == 'traj' else 'logmc'
+                betas0 = self.betas_at(0)
+                e = self.build(lform, betas0)
+                p = Parameters()
+                p.set_value('number_of_threads', T)
+                p.set_value('number_of_draws', self.cfg['R'])
+                p.set_value('save_iterations', False)
+                p.set_value('generate_html', False)
+                p.set_value('generate_pickle', False)
+                p.set_value('bootstrap_samples', 2)
+                p.set_value('max_iterations', 4)
+                p.set_value('optimization_algorithm', 'simple_bounds')
+                b = bio.BIOGEME(self.db, e, parameters=p)
+                b.modelName = 'pan'
+                b.estimate(run_bootstrap=True)
+                betas = self.betas_at(k)
+                want = self.reference(lform, betas)
+                x = [betas[n] for n in b.free_beta_names]
+                ll = float(b.calculate_likelihood(x, scaled=False))
+                tot = sum(want.values())
+                if not ref.close(ll, tot, 1e-10, 1e-12):
+                    ctx.fail('I09.boot', f'after estimate(run_bootstrap=True) the log likelihood of the same panel object is {ll!r}, '
+                                         f'on the estimation data it is {tot!r}')
+                out = b.calculate_likelihood_and_derivatives(x, scaled=False)
+                if not ref.close(float(out.function), tot, 1e-10, 1e-12):
+                    ctx.fail('I09.boot', f'after estimate(run_bootstrap=True) the log likelihood (with derivatives) of the same panel '
+                                         f'object is {float(out.function)!r}, on the estimation data it is {tot!r}')
+                ctx.count('fault:bootstrap-resampling-of-individuals')
+                self._after_eval(form)
+                ctx.log(kind, T, fhex(ll))
         elif kind == 'MAP':
             self.db.build_panel_map()
             self.check_map()
